@@ -12,15 +12,19 @@ def Pc.isWorker : Pc → Bool
 def Pc.isLoop : Pc → Bool
   | Pc.wRelock | Pc.wLoop | Pc.wCvEnter | Pc.wCvCheck | Pc.wCvBlocked | Pc.wRun _ | Pc.wExit => true
   | _ => false
+/-- program counters of pool B's worker -/
+def Pc.isB : Pc → Bool
+  | Pc.bLoop | Pc.bCvCheck | Pc.bCvBlocked | Pc.bExitPc => true
+  | _ => false
 def Pc.inStop : Pc → Bool
   | Pc.stopJoin | Pc.joinBlocked | Pc.stopDrop => true
   | _ => false
 /-- pcs a thread can be at while it executes an activity (script, job body, closure destructor) -/
 def Pc.inBody : Pc → Bool
-  | Pc.idle | Pc.enqCS _ | Pc.afterEnq _ _ | Pc.stopCS _ | Pc.waitFlag _ | Pc.stopJoin | Pc.joinBlocked | Pc.stopDrop => true
+  | Pc.idle | Pc.enqCS _ | Pc.afterEnq _ _ | Pc.stopCS _ | Pc.waitFlag _ | Pc.bStopCS _ | Pc.bStopJoin | Pc.bJoinBlocked | Pc.stopJoin | Pc.joinBlocked | Pc.stopDrop => true
   | _ => false
 def Pc.bodyPhase : Pc → Bool
-  | Pc.idle | Pc.enqCS _ | Pc.afterEnq _ _ | Pc.stopCS _ | Pc.waitFlag _ | Pc.stopJoin | Pc.joinBlocked | Pc.stopDrop | Pc.wFlush => true
+  | Pc.idle | Pc.enqCS _ | Pc.afterEnq _ _ | Pc.stopCS _ | Pc.waitFlag _ | Pc.bStopCS _ | Pc.bStopJoin | Pc.bJoinBlocked | Pc.stopJoin | Pc.joinBlocked | Pc.stopDrop | Pc.wFlush => true
   | _ => false
 
 structure Inv (c : Cfg) (s : State) : Prop where
@@ -28,6 +32,7 @@ structure Inv (c : Cfg) (s : State) : Prop where
   wf_out : c.dtorOutside = true
   wf_nw : 0 < c.nw
   wf_nt : c.nw ≤ c.nt
+  wf_b : c.hasB = true → c.nw < c.nt
   -- who can be where
   t_out : ∀ t, c.nt ≤ t → s.pc t = Pc.done
   t_worker : ∀ t, (s.pc t).isWorker = true → t < c.nw
@@ -104,6 +109,15 @@ structure Inv (c : Cfg) (s : State) : Prop where
   j_thr : s.exit = false → ∀ w, w < c.nw → w ∈ s.threads
   j_thr0 : s.exit = true → s.threads = []
   j_thrw : ∀ u, u ∈ s.threads → u < c.nw
+  -- pool B: its worker is thread `nw`; once B is stopped its worker is (being) woken
+  bb_pc : ∀ t, (s.pc t).isB = true → c.hasB = true ∧ t = c.nw
+  bb_bw : s.bw = c.nw
+  bb_exit : s.bExit = true → s.bWoken = true
+  bb_stop : ∀ t, (s.pc t = Pc.bStopJoin ∨ s.pc t = Pc.bJoinBlocked) → s.bExit = true
+  bb_w : c.hasB = true → (s.pc c.nw).isB = true ∨ s.pc c.nw = Pc.done
+  bb_tmp : ∀ t, s.btmp t = true → c.hasB = true
+  bb_ht : s.bHasThread = true → c.hasB = true
+  bb_jb : ∀ t, s.pc t = Pc.bJoinBlocked → s.btmp t = true
   -- a worker that detached itself
   z_det : ∀ t, s.detached t = true → s.cur t = false ∧ (s.pc t).isLoop = false
   z_cur : ∀ t, t < c.nw → s.cur t = false → s.detached t = true
@@ -149,7 +163,7 @@ theorem pick_cases (l : List Nat) (k : Nat) :
 macro "inv_simp" : tactic =>
   `(tactic| ((try dsimp only [newJob, setPc]); try simp only [upd_apply]))
 macro "inv_grind" : tactic =>
-  `(tactic| grind [Pc.isWorker, Pc.isLoop, Pc.inStop, Pc.inBody, Pc.bodyPhase])
+  `(tactic| grind [Pc.isWorker, Pc.isLoop, Pc.inStop, Pc.inBody, Pc.bodyPhase, Pc.isB])
 
 /-- prove `Inv c s'` from `h : Inv c s`: every clause first from its own old version (plus the local context), then
 from the clauses of its group, then from the whole old invariant; clauses that resist stay open (tagged by name) -/
@@ -158,6 +172,7 @@ macro "inv_step" h:ident : tactic => `(tactic| (
   case wf_out => exact ($h).wf_out
   case wf_nw => exact ($h).wf_nw
   case wf_nt => exact ($h).wf_nt
+  case wf_b => exact ($h).wf_b
   case' t_out => (have hf_ := ($h).t_out; inv_simp; try (first | exact hf_ | inv_grind | (have hg0_ := ($h).t_worker; have hg1_ := ($h).t_ret; have hg2_ := ($h).t_script; have hg3_ := ($h).t_noB; have hg4_ := ($h).t_enq; have hg5_ := ($h).t_enq2; have hg6_ := ($h).n_noexit; have hg7_ := ($h).wf_nt; inv_grind) | (have hh_ := $h; cases hh_; inv_grind)))
   case' t_worker => (have hf_ := ($h).t_worker; inv_simp; try (first | exact hf_ | inv_grind | (have hg0_ := ($h).t_out; have hg1_ := ($h).t_ret; have hg2_ := ($h).t_script; have hg3_ := ($h).t_noB; have hg4_ := ($h).t_enq; have hg5_ := ($h).t_enq2; have hg6_ := ($h).n_noexit; have hg7_ := ($h).wf_nt; inv_grind) | (have hh_ := $h; cases hh_; inv_grind)))
   case' t_ret => (have hf_ := ($h).t_ret; inv_simp; try (first | exact hf_ | inv_grind | (have hg0_ := ($h).t_out; have hg1_ := ($h).t_worker; have hg2_ := ($h).t_script; have hg3_ := ($h).t_noB; have hg4_ := ($h).t_enq; have hg5_ := ($h).t_enq2; have hg6_ := ($h).n_noexit; have hg7_ := ($h).wf_nt; inv_grind) | (have hh_ := $h; cases hh_; inv_grind)))
@@ -220,6 +235,14 @@ macro "inv_step" h:ident : tactic => `(tactic| (
   case' j_thr => (have hf_ := ($h).j_thr; inv_simp; try (first | exact hf_ | inv_grind | (have hg0_ := ($h).n_noexit; have hg1_ := ($h).s_tmp_pc; have hg2_ := ($h).s_tmp_uniq; have hg3_ := ($h).s_thr_tmp; have hg4_ := ($h).s_jb_head; have hg5_ := ($h).s_tmp_w; have hg6_ := ($h).s_nostuck; have hg7_ := ($h).j_all; have hg8_ := ($h).j_thr0; have hg9_ := ($h).j_thrw; have hg10_ := ($h).z_det; have hg11_ := ($h).z_cur; have hg12_ := ($h).z_touch; have hg13_ := ($h).d_exit; have hg14_ := ($h).t_worker; have hg15_ := ($h).t_ret; have hg16_ := ($h).t_script; have hg17_ := ($h).wf_nt; inv_grind) | (have hh_ := $h; cases hh_; inv_grind)))
   case' j_thr0 => (have hf_ := ($h).j_thr0; inv_simp; try (first | exact hf_ | inv_grind | (have hg0_ := ($h).n_noexit; have hg1_ := ($h).s_tmp_pc; have hg2_ := ($h).s_tmp_uniq; have hg3_ := ($h).s_thr_tmp; have hg4_ := ($h).s_jb_head; have hg5_ := ($h).s_tmp_w; have hg6_ := ($h).s_nostuck; have hg7_ := ($h).j_all; have hg8_ := ($h).j_thr; have hg9_ := ($h).j_thrw; have hg10_ := ($h).z_det; have hg11_ := ($h).z_cur; have hg12_ := ($h).z_touch; have hg13_ := ($h).d_exit; have hg14_ := ($h).t_worker; have hg15_ := ($h).t_ret; have hg16_ := ($h).t_script; have hg17_ := ($h).wf_nt; inv_grind) | (have hh_ := $h; cases hh_; inv_grind)))
   case' j_thrw => (have hf_ := ($h).j_thrw; inv_simp; try (first | exact hf_ | inv_grind | (have hg0_ := ($h).n_noexit; have hg1_ := ($h).s_tmp_pc; have hg2_ := ($h).s_tmp_uniq; have hg3_ := ($h).s_thr_tmp; have hg4_ := ($h).s_jb_head; have hg5_ := ($h).s_tmp_w; have hg6_ := ($h).s_nostuck; have hg7_ := ($h).j_all; have hg8_ := ($h).j_thr; have hg9_ := ($h).j_thr0; have hg10_ := ($h).z_det; have hg11_ := ($h).z_cur; have hg12_ := ($h).z_touch; have hg13_ := ($h).d_exit; have hg14_ := ($h).t_worker; have hg15_ := ($h).t_ret; have hg16_ := ($h).t_script; have hg17_ := ($h).wf_nt; inv_grind) | (have hh_ := $h; cases hh_; inv_grind)))
+  case' bb_pc => (have hf_ := ($h).bb_pc; inv_simp; try (first | exact hf_ | inv_grind | (have hg0_ := ($h).bb_bw; have hg1_ := ($h).bb_exit; have hg2_ := ($h).bb_stop; have hg3_ := ($h).bb_w; have hg4_ := ($h).bb_tmp; have hg5_ := ($h).bb_ht; have hg6_ := ($h).bb_jb; have hg7_ := ($h).wf_b; have hg8_ := ($h).wf_nt; have hg9_ := ($h).t_out; inv_grind) | (have hh_ := $h; cases hh_; inv_grind)))
+  case' bb_bw => (have hf_ := ($h).bb_bw; inv_simp; try (first | exact hf_ | inv_grind | (have hg0_ := ($h).bb_pc; have hg1_ := ($h).bb_exit; have hg2_ := ($h).bb_stop; have hg3_ := ($h).bb_w; have hg4_ := ($h).bb_tmp; have hg5_ := ($h).bb_ht; have hg6_ := ($h).bb_jb; have hg7_ := ($h).wf_b; have hg8_ := ($h).wf_nt; have hg9_ := ($h).t_out; inv_grind) | (have hh_ := $h; cases hh_; inv_grind)))
+  case' bb_exit => (have hf_ := ($h).bb_exit; inv_simp; try (first | exact hf_ | inv_grind | (have hg0_ := ($h).bb_pc; have hg1_ := ($h).bb_bw; have hg2_ := ($h).bb_stop; have hg3_ := ($h).bb_w; have hg4_ := ($h).bb_tmp; have hg5_ := ($h).bb_ht; have hg6_ := ($h).bb_jb; have hg7_ := ($h).wf_b; have hg8_ := ($h).wf_nt; have hg9_ := ($h).t_out; inv_grind) | (have hh_ := $h; cases hh_; inv_grind)))
+  case' bb_stop => (have hf_ := ($h).bb_stop; inv_simp; try (first | exact hf_ | inv_grind | (have hg0_ := ($h).bb_pc; have hg1_ := ($h).bb_bw; have hg2_ := ($h).bb_exit; have hg3_ := ($h).bb_w; have hg4_ := ($h).bb_tmp; have hg5_ := ($h).bb_ht; have hg6_ := ($h).bb_jb; have hg7_ := ($h).wf_b; have hg8_ := ($h).wf_nt; have hg9_ := ($h).t_out; inv_grind) | (have hh_ := $h; cases hh_; inv_grind)))
+  case' bb_w => (have hf_ := ($h).bb_w; inv_simp; try (first | exact hf_ | inv_grind | (have hg0_ := ($h).bb_pc; have hg1_ := ($h).bb_bw; have hg2_ := ($h).bb_exit; have hg3_ := ($h).bb_stop; have hg4_ := ($h).bb_tmp; have hg5_ := ($h).bb_ht; have hg6_ := ($h).bb_jb; have hg7_ := ($h).wf_b; have hg8_ := ($h).wf_nt; have hg9_ := ($h).t_out; inv_grind) | (have hh_ := $h; cases hh_; inv_grind)))
+  case' bb_tmp => (have hf_ := ($h).bb_tmp; inv_simp; try (first | exact hf_ | inv_grind | (have hg0_ := ($h).bb_pc; have hg1_ := ($h).bb_bw; have hg2_ := ($h).bb_exit; have hg3_ := ($h).bb_stop; have hg4_ := ($h).bb_w; have hg5_ := ($h).bb_ht; have hg6_ := ($h).bb_jb; have hg7_ := ($h).wf_b; have hg8_ := ($h).wf_nt; have hg9_ := ($h).t_out; inv_grind) | (have hh_ := $h; cases hh_; inv_grind)))
+  case' bb_ht => (have hf_ := ($h).bb_ht; inv_simp; try (first | exact hf_ | inv_grind | (have hg0_ := ($h).bb_pc; have hg1_ := ($h).bb_bw; have hg2_ := ($h).bb_exit; have hg3_ := ($h).bb_stop; have hg4_ := ($h).bb_w; have hg5_ := ($h).bb_tmp; have hg6_ := ($h).bb_jb; have hg7_ := ($h).wf_b; have hg8_ := ($h).wf_nt; have hg9_ := ($h).t_out; inv_grind) | (have hh_ := $h; cases hh_; inv_grind)))
+  case' bb_jb => (have hf_ := ($h).bb_jb; inv_simp; try (first | exact hf_ | inv_grind | (have hg0_ := ($h).bb_pc; have hg1_ := ($h).bb_bw; have hg2_ := ($h).bb_exit; have hg3_ := ($h).bb_stop; have hg4_ := ($h).bb_w; have hg5_ := ($h).bb_tmp; have hg6_ := ($h).bb_ht; have hg7_ := ($h).wf_b; have hg8_ := ($h).wf_nt; have hg9_ := ($h).t_out; inv_grind) | (have hh_ := $h; cases hh_; inv_grind)))
   case' z_det => (have hf_ := ($h).z_det; inv_simp; try (first | exact hf_ | inv_grind | (have hg0_ := ($h).n_noexit; have hg1_ := ($h).s_tmp_pc; have hg2_ := ($h).s_tmp_uniq; have hg3_ := ($h).s_thr_tmp; have hg4_ := ($h).s_jb_head; have hg5_ := ($h).s_tmp_w; have hg6_ := ($h).s_nostuck; have hg7_ := ($h).j_all; have hg8_ := ($h).j_thr; have hg9_ := ($h).j_thr0; have hg10_ := ($h).j_thrw; have hg11_ := ($h).z_cur; have hg12_ := ($h).z_touch; have hg13_ := ($h).d_exit; have hg14_ := ($h).t_worker; have hg15_ := ($h).t_ret; have hg16_ := ($h).t_script; have hg17_ := ($h).wf_nt; inv_grind) | (have hh_ := $h; cases hh_; inv_grind)))
   case' z_cur => (have hf_ := ($h).z_cur; inv_simp; try (first | exact hf_ | inv_grind | (have hg0_ := ($h).n_noexit; have hg1_ := ($h).s_tmp_pc; have hg2_ := ($h).s_tmp_uniq; have hg3_ := ($h).s_thr_tmp; have hg4_ := ($h).s_jb_head; have hg5_ := ($h).s_tmp_w; have hg6_ := ($h).s_nostuck; have hg7_ := ($h).j_all; have hg8_ := ($h).j_thr; have hg9_ := ($h).j_thr0; have hg10_ := ($h).j_thrw; have hg11_ := ($h).z_det; have hg12_ := ($h).z_touch; have hg13_ := ($h).d_exit; have hg14_ := ($h).t_worker; have hg15_ := ($h).t_ret; have hg16_ := ($h).t_script; have hg17_ := ($h).wf_nt; inv_grind) | (have hh_ := $h; cases hh_; inv_grind)))
   case' z_touch => (have hf_ := ($h).z_touch; inv_simp; try (first | exact hf_ | inv_grind | (have hg0_ := ($h).n_noexit; have hg1_ := ($h).s_tmp_pc; have hg2_ := ($h).s_tmp_uniq; have hg3_ := ($h).s_thr_tmp; have hg4_ := ($h).s_jb_head; have hg5_ := ($h).s_tmp_w; have hg6_ := ($h).s_nostuck; have hg7_ := ($h).j_all; have hg8_ := ($h).j_thr; have hg9_ := ($h).j_thr0; have hg10_ := ($h).j_thrw; have hg11_ := ($h).z_det; have hg12_ := ($h).z_cur; have hg13_ := ($h).d_exit; have hg14_ := ($h).t_worker; have hg15_ := ($h).t_ret; have hg16_ := ($h).t_script; have hg17_ := ($h).wf_nt; inv_grind) | (have hh_ := $h; cases hh_; inv_grind)))
